@@ -60,3 +60,9 @@ pub(crate) fn lock_event(kind: &str, fid: i64, detail: &str) {
         detail
     ));
 }
+
+/// The `redo` command (forced mode): every job this process starts is started
+/// whatever the target's row says.  `lck <pid> <runid> forced_cmd 0 -`.
+pub fn forced_command() {
+    lock_event("forced_cmd", 0, "-");
+}
